@@ -95,6 +95,7 @@ def run(repo, rep, tier):
     r2 = rep.rule('C11.R2', 'batch APIs roll back or validate the whole '
                   'batch first')
     write_loops_are_duplicate_free(repo, rep)
+    validated_entry_is_deleted_last(repo, rep)
     rollback_undoes_own_work(repo, rep)
     res = Resolver(repo)
     ea = EscapeAnalysis(repo, res, model_none=False)
@@ -389,6 +390,149 @@ def _succ_closure(cfg, n):
     return seen
 
 
+def list_composition(func, name, before, depth=0):
+    """what the list `name` consists of when the statement `before` is
+    reached, in order, as far as the statements of the function that build
+    it show: [('elem', expr) | ('call', call node) | ('unknown', node)].
+    Handles `name = <list expr>`, name.append(x), name.extend(e),
+    name.insert(0, x), `name += e`; list expressions are literals, calls,
+    `a + b`, list(x) and other local lists (followed)."""
+    def tokens(e, d):
+        if isinstance(e, (ast.List, ast.Tuple)):
+            return [('elem', x) for x in e.elts]
+        if isinstance(e, ast.BinOp) and isinstance(e.op, ast.Add):
+            return tokens(e.left, d) + tokens(e.right, d)
+        if isinstance(e, ast.Call) and dotted(e.func) in ('list', 'tuple') \
+                and len(e.args) == 1:
+            return tokens(e.args[0], d)
+        if isinstance(e, ast.Call) and dotted(e.func) in ('list', 'tuple') \
+                and not e.args:
+            return []
+        if isinstance(e, ast.Call):
+            return [('call', e)]
+        if isinstance(e, ast.Name) and d < 2 and e.id != name:
+            return list_composition(func, e.id, before, d + 1)
+        return [('unknown', e)]
+    out = []
+    limit = getattr(before, 'lineno', 10 ** 9)
+    stmts = sorted((n for n in walk_no_nested(func.node)
+                    if isinstance(n, ast.stmt) and
+                    getattr(n, 'lineno', 0) < limit),
+                   key=lambda n: (n.lineno, n.col_offset))
+    for n in stmts:
+        if isinstance(n, ast.Assign) and len(n.targets) == 1 and \
+                norm(n.targets[0]) == name:
+            out = tokens(n.value, depth)
+        elif isinstance(n, ast.AugAssign) and norm(n.target) == name and \
+                isinstance(n.op, ast.Add):
+            out = out + tokens(n.value, depth)
+        elif isinstance(n, ast.Expr) and isinstance(n.value, ast.Call) and \
+                isinstance(n.value.func, ast.Attribute) and \
+                norm(n.value.func.value) == name:
+            c = n.value
+            if c.func.attr == 'append' and len(c.args) == 1:
+                out = out + [('elem', c.args[0])]
+            elif c.func.attr == 'extend' and len(c.args) == 1:
+                out = out + tokens(c.args[0], depth)
+            elif c.func.attr == 'insert' and len(c.args) == 2 and \
+                    isinstance(c.args[0], ast.Constant) and \
+                    c.args[0].value == 0:
+                out = [('elem', c.args[1])] + out
+            elif c.func.attr in ('sort', 'reverse', 'insert', 'remove',
+                                 'pop', 'clear'):
+                out = out + [('unknown', c)]
+    return out
+
+
+def validated_entry_is_deleted_last(repo, rep):
+    """C11.R5: DeleteInstance of a multi-namespace association removes one
+    copy of the instance per namespace.  Only the copy in the namespace of
+    the request is known to exist (the dispatcher checked it); the copies in
+    the other namespaces are not checked beforehand, and store.delete()
+    raises for a missing one.  The operation can therefore fail only before
+    it has changed anything if the unchecked deletes come first and the
+    checked one last: the list the delete loop iterates must end with the
+    request namespace.  (With the request namespace first, a missing copy
+    elsewhere makes the call raise after the instance has been removed from
+    the request namespace.)"""
+    r5 = rep.rule('C11.R5', 'in a multi-namespace delete the copy that is '
+                  'known to exist is removed last')
+    IWPF = 'pywbem_mock/_instancewriteprovider.py'
+    f = repo.cls(IWPF, 'InstanceWriteProvider').methods.get('DeleteInstance')
+    if f is None:
+        raise AnalysisError('InstanceWriteProvider.DeleteInstance vanished')
+    pname = [p_ for p_ in f.params if p_ != 'self'][0]
+    # names that stand for the namespace of the request
+    req = {pname + '.namespace'}
+    for n in walk_no_nested(f.node):
+        if isinstance(n, ast.Assign) and len(n.targets) == 1 and \
+                isinstance(n.targets[0], ast.Name) and \
+                norm(n.value) in req:
+            req.add(n.targets[0].id)
+    loops = []
+    for lp in walk_no_nested(f.node):
+        if isinstance(lp, ast.For) and any(
+                isinstance(c, ast.Call) and
+                isinstance(c.func, ast.Attribute) and
+                c.func.attr == 'delete' and
+                norm(c.func.value).endswith('_store')
+                for c in ast.walk(lp)):
+            loops.append(lp)
+    if not loops:
+        raise AnalysisError('DeleteInstance: multi-namespace delete loop '
+                            'not found')
+    r5.functions.add(f.fq)
+    for lp in loops:
+        r5.sites += 1
+        if isinstance(lp.iter, ast.Name):
+            toks = list_composition(f, lp.iter.id, lp)
+        else:
+            toks = [('unknown', lp.iter)]
+            if isinstance(lp.iter, ast.BinOp):
+                toks = []
+                work = [lp.iter]
+                parts = []
+                while work:
+                    e = work.pop()
+                    if isinstance(e, ast.BinOp) and isinstance(e.op, ast.Add):
+                        work += [e.right, e.left]
+                    else:
+                        parts.append(e)
+                for e in parts:
+                    if isinstance(e, (ast.List, ast.Tuple)):
+                        toks += [('elem', x) for x in e.elts]
+                    elif isinstance(e, ast.Name):
+                        toks += list_composition(f, e.id, lp)
+                    elif isinstance(e, ast.Call):
+                        toks += [('call', e)]
+                    else:
+                        toks += [('unknown', e)]
+        where = [i for i, (k_, v) in enumerate(toks)
+                 if k_ == 'elem' and norm(v) in req]
+        if any(k_ == 'unknown' for k_, _v in toks) or not toks:
+            r5.undecided.append('%s: the order of the namespaces the delete '
+                                'loop iterates is not evident (%s)'
+                                % (f.qualname, norm(lp.iter, 40)))
+            continue
+        ok = where == [len(toks) - 1]
+        r5.ob(ok, '%s|for %s' % (f.qualname, norm(lp.iter, 30)),
+              {'order': ['request namespace' if k_ == 'elem' and
+                         norm(v) in req else norm(v, 50)
+                         for k_, v in toks]})
+        if not ok:
+            rep.finding(r5, f.qualname, 'for %s in %s' % (
+                norm(lp.target), norm(lp.iter, 30)), 'validated-not-last',
+                IWPF, lp.lineno,
+                'the delete loop does not remove the copy in the request '
+                'namespace last (order: %s): when a copy in another '
+                'namespace is missing, store.delete() raises after the '
+                'instance has already been removed from the request '
+                'namespace - the failed operation has changed the '
+                'repository' % ', '.join(
+                    'request namespace' if k_ == 'elem' and norm(v) in req
+                    else norm(v, 40) for k_, v in toks))
+
+
 def write_loops_are_duplicate_free(repo, rep, rid='C11.R3'):
     """C11.R3: a loop that deletes / creates one store entry per element of
     a collection must iterate a duplicate-free collection.  The second
@@ -441,11 +585,9 @@ def write_loops_are_duplicate_free(repo, rep, rid='C11.R3'):
                        norm(c.func.value).endswith('_store')]
             if not writes_:
                 continue
-            src = [n.value for n in walk_no_nested(f.node)
-                   if isinstance(n, ast.Assign) and
-                   norm(n.targets[0]) == lp.iter.id]
+            toks = list_composition(f, lp.iter.id, lp)
             helpers = [cls.find_method((dotted(v.func) or '')[5:])
-                       for v in src if isinstance(v, ast.Call) and
+                       for k_, v in toks if k_ == 'call' and
                        (dotted(v.func) or '').startswith('self.')]
             if not helpers or any(h is None for h in helpers):
                 continue
